@@ -26,11 +26,10 @@ MARKS = '¡¢£¤¥¦'
 
 
 class Lettered:
-    def __init__(self, src: str, mode: str = 'exec'):
+    def __init__(self, src: str, mode: str = 'exec', extra: str = ''):
         self.src = src
         self.mode = mode
-        self.k = len([c for c in src if c in MARKS])
-        self.marks = sorted({c for c in src if c in MARKS}, key=MARKS.index)
+        self.marks = sorted({c for c in src + extra if c in MARKS}, key=MARKS.index)
         assert self.marks == list(MARKS[:len(self.marks)]), 'use markers in order ¡ ¢ £ ...'
         self.k = len(self.marks)
         ast.parse(src)
@@ -78,11 +77,12 @@ def positions(a):
     return [(type(n).__name__, n.lineno, n.col_offset, n.end_lineno, n.end_col_offset) for n in ast.walk(a) if hasattr(n, 'end_col_offset')]
 
 
-def make_letter_fn(name: str, src: str, script, queries=None, validate=None):
+def make_letter_fn(name: str, src: str, script, queries=None, validate=None, extra=''):
     """script(root) performs edits (same code for the marker run and the symbolic run) and may return a root to judge
     (default: the root it was given). queries(root) -> list of (label, value) read-only answers compared as re-lettered."""
-    L = Lettered(src)
+    L = Lettered(src, extra=extra)
     with_q = queries is not None
+    script2 = len(inspect.signature(script).parameters) >= 2     # script(root, T): T re-letters a marker string used as an ARGUMENT (identity in the marker run)
 
     # (1) concrete marker run, judged by CPython — deterministic, computed on first use (inside the cell, so that a
     #     violation on the marker text itself is reported and replayed like any other)
@@ -93,7 +93,7 @@ def make_letter_fn(name: str, src: str, script, queries=None, validate=None):
             with untraced():
                 g = FST(src, 'exec')
                 reset_globals()
-                g2 = script(g) or g
+                g2 = (script(g, lambda m_: m_) if script2 else script(g)) or g
                 o_parse(g2, f'letter.{name}.marker_run', 'exec' if isinstance(g2.a, ast.Module) else 'eval')
                 if validate is not None:
                     validate(g2, f'letter.{name}.marker_run')     # independent (CPython) judgement of the marker answers
@@ -107,7 +107,7 @@ def make_letter_fn(name: str, src: str, script, queries=None, validate=None):
             assume(okcp(x) and x >= 0x80)
         ref_lines, ref_pos, ref_q = marker_run()
         f = L.build(xs)
-        f2 = script(f) or f
+        f2 = (script(f, lambda m_: L.text(m_, xs)) if script2 else script(f)) or f
         got_lines = f2._lines
         check(len(got_lines) == len(ref_lines), f'letter.{name}.line_count', (len(got_lines), len(ref_lines)))
         for i, rl in enumerate(ref_lines):
@@ -150,8 +150,8 @@ FN = ['fst.astutil.bistr.c2b', 'fst.astutil.bistr.b2c', 'fst.fst_core._put_src',
       'fst.fst.FST.loc', 'fst.fst.FST.pars']
 
 
-def letter_cell(prefix, name, src, script, queries=None, tier='quick', budget=400, validate=None):
-    fn, L = make_letter_fn(name, src, script, queries, validate)
+def letter_cell(prefix, name, src, script, queries=None, tier='quick', budget=400, validate=None, extra=''):
+    fn, L = make_letter_fn(name, src, script, queries, validate, extra)
     return Cell(f'{prefix}.letter[{name}]', fn, 'T', FN,
                 f'carrier {src!r}: each of the {L.k} marker characters ranges over EVERY Unicode scalar value >= U+0080 (all UTF-8 widths 2-4); '
                 'fixed operation script; source text and all node positions compared symbolically',
